@@ -33,7 +33,24 @@ func (v vclock) tick(id int) { v[id]++ }
 type access struct {
 	g     int
 	clock int
-	site  string
+	pc    uintptr
+}
+
+func (a *access) site() string { return siteOf(a.pc) }
+
+func siteOf(pc uintptr) string {
+	fr, _ := runtime.CallersFrames([]uintptr{pc}).Next()
+	file := fr.File
+	if i := strings.LastIndex(file, "/"); i >= 0 {
+		file = file[i+1:]
+	}
+	return fmt.Sprintf("%s:%d", file, fr.Line)
+}
+
+func callerPC(skip int) uintptr {
+	var pcs [1]uintptr
+	runtime.Callers(skip+1, pcs[:])
+	return pcs[0]
 }
 
 type varState struct {
@@ -68,7 +85,7 @@ func site(skip int) string {
 	return fmt.Sprintf("%s:%d", file, line)
 }
 
-func (e *Exec) onAccess(p unsafe.Pointer, write bool, where string) {
+func (e *Exec) onAccess(p unsafe.Pointer, write bool, pc uintptr) {
 	rt := e.races
 	g := e.cur
 	if rt == nil || g == nil {
@@ -80,11 +97,11 @@ func (e *Exec) onAccess(p unsafe.Pointer, write bool, where string) {
 		vs = &varState{reads: map[int]*access{}}
 		rt.vars[p] = vs
 	}
-	me := &access{g: g.id, clock: g.vc[g.id], site: where}
+	me := &access{g: g.id, clock: g.vc[g.id], pc: pc}
 	hb := func(a *access) bool { return a.g == g.id || a.clock <= g.vc[a.g] }
 	report := func(a *access, aw bool) {
-		k1 := fmt.Sprintf("%s %s", rw(aw), a.site)
-		k2 := fmt.Sprintf("%s %s", rw(write), where)
+		k1 := fmt.Sprintf("%s %s", rw(aw), a.site())
+		k2 := fmt.Sprintf("%s %s", rw(write), siteOf(pc))
 		key := k1 + " | " + k2
 		if k2 < k1 {
 			key = k2 + " | " + k1
@@ -144,7 +161,7 @@ func (e *Exec) AccessEvents() int {
 // R marks a read of *p (rewritten shared-memory read). It returns p.
 func R[T any](p *T) *T {
 	if e := current(); e != nil && e.races != nil && len(e.gs) > 1 {
-		e.onAccess(unsafe.Pointer(p), false, site(2))
+		e.onAccess(unsafe.Pointer(p), false, callerPC(2))
 	}
 	return p
 }
@@ -152,7 +169,7 @@ func R[T any](p *T) *T {
 // W marks a write of *p (rewritten shared-memory write). It returns p.
 func W[T any](p *T) *T {
 	if e := current(); e != nil && e.races != nil && len(e.gs) > 1 {
-		e.onAccess(unsafe.Pointer(p), true, site(2))
+		e.onAccess(unsafe.Pointer(p), true, callerPC(2))
 	}
 	return p
 }
